@@ -2964,18 +2964,20 @@ void Analyser::AnalyserImpl::analyseModel(const ModelPtr &model)
     //       proven to be computed using an NLA system, in which case the
     //       equation should now be considered as an algebraic equation and the
     //       variable it computes an algebraic variable.
+    //       A requalified variable may itself be used by another equation
+    //       of that type (whatever the order of the equations), so we keep
+    //       going until nothing gets requalified anymore.
 
-    // Confirm that the variables in an NLA system are not overconstrained.
-    // Note: this may happen if an NLA system contains too many NLA equations
-    //       to compute its unknown variables and/or if some internal equations
-    //       were removed (as a result of some variables in an NLA equation
-    //       having been marked as external).
+    bool requalified;
 
-    AnalyserInternalVariablePtrs overconstrainedVariables;
+    do {
+        requalified = false;
 
-    for (const auto &internalEquation : mInternalEquations) {
-        switch (internalEquation->mType) {
-        case AnalyserInternalEquation::Type::VARIABLE_BASED_CONSTANT: {
+        for (const auto &internalEquation : mInternalEquations) {
+            if (internalEquation->mType != AnalyserInternalEquation::Type::VARIABLE_BASED_CONSTANT) {
+                continue;
+            }
+
             auto unknownVariable = internalEquation->mUnknownVariables.front();
 
             for (const auto &variable : internalEquation->mAllVariables) {
@@ -2992,10 +2994,24 @@ void Analyser::AnalyserImpl::analyseModel(const ModelPtr &model)
                     unknownVariable->mType = AnalyserInternalVariable::Type::ALGEBRAIC;
                     internalEquation->mType = AnalyserInternalEquation::Type::ALGEBRAIC;
 
+                    requalified = true;
+
                     break;
                 }
             }
-        } break;
+        }
+    } while (requalified);
+
+    // Confirm that the variables in an NLA system are not overconstrained.
+    // Note: this may happen if an NLA system contains too many NLA equations
+    //       to compute its unknown variables and/or if some internal equations
+    //       were removed (as a result of some variables in an NLA equation
+    //       having been marked as external).
+
+    AnalyserInternalVariablePtrs overconstrainedVariables;
+
+    for (const auto &internalEquation : mInternalEquations) {
+        switch (internalEquation->mType) {
         case AnalyserInternalEquation::Type::NLA:
             if (internalEquation->mNlaSiblings.size() + 1 > internalEquation->mUnknownVariables.size()) {
                 // There are more NLA equations than unknown variables, so all
